@@ -135,6 +135,14 @@ func execLRU(c lruCase, _ *kit.Env) kit.Outcome {
 			}
 
 			var ns lruset.Set
+
+			if i%2 == 1 {
+				// restore into a live set that already holds other content
+				ns = lruset.NewSet(c.Ways + 1)
+				ns.UpdateKey(0, "", "stale")
+				ns.Evict()
+			}
+
 			if err := json.Unmarshal(raw, &ns); err != nil {
 				return fail(i, "json", "unmarshal: %v", err)
 			}
